@@ -23,7 +23,7 @@ from hypothesis import strategies as st
 from vf.core import Part, Violation, call
 
 PROPERTY = "C13"
-RULE = ("Hypothesis draws integer arrays from a per-case value pool (zero share 20/33/50/67%, magnitudes from a few "
+RULE = ("Vectors with an explicit axis=0 are judged for 'prio'/'rank' as any order-preserving dense ranking. Hypothesis draws integer arrays from a per-case value pool (zero share 20/33/50/67%, magnitudes from a few "
         "small sets so ties are frequent, +v and -v both present, 20% of the pools with 1-3 magnitudes up to 10^6), "
         "optionally with a zeroed row/column or all zeros. Shapes: 1-D (1-12 entries; a near-overflow flavour with "
         "52-68 distinct magnitudes), 2-D 1-5 levels x 1-8 columns on axis 0, axis 1 and flattened (axis None), 3-D "
